@@ -61,10 +61,10 @@ PROPS = {
         "engine": "dsim",
         "level": "fault_enumeration",
         "technique": "deterministic simulation with fault injection (in-flight damage of response frames of a scripted exchange: truncation enumerated at every offset of every frame, seeded bit flips / field-aware overwrites / header damage / garbage / deep nesting, child-process crash and allocation monitors)",
-        "rule": "a real session runs a scripted exchange touching every response kind the mock emits (SUPPORTED, READY/AUTHENTICATE/AUTH_SUCCESS, PREPARED and paged Rows of system tables, Rows with native/collection/tuple/UDT/nested types read through CqlValue rows, Void with warnings, tracing id, every ERROR code, SetKeyspace, SchemaChange, EVENTs, tablets custom payload, LZ4/Snappy bodies). Even run indices enumerate truncation (then FIN) of frame f at offset o for EVERY (f, o) with o < len(f) of the fixed-seed exchange (frame lengths measured by a dry run; counter enum_truncation_points_total vs enum_truncations_fired); odd run indices sample feature combinations and one damage to one seeded frame: bit flips, 1/2/4-byte overwrites with 0/-1/1/i32::MAX/... at any offset before or after compression (covers every length/count/flag/type-id field), header flags/opcode/version/length, LZ4 length prefix, garbage frame or body, result metadata nested 8..120000 levels deep, custom (type id 0) columns whose class string comes from a seeded grammar fuzzer over the marshal class syntax (nested parentheses to depth 100000, unbalanced, empty parameters, hex names incl. odd length / non-hex / non-ASCII alphanumerics, frozen/reversed wrappers, unknown classes); 1 in 10 sampled runs is damage-free and checks exact round trip. Non-trivial = a damage fired. Distinct = distinct (poll-sequence hash, event-log hash).",
+        "rule": "a real session runs a scripted exchange touching every response kind the mock emits (SUPPORTED, READY/AUTHENTICATE/AUTH_SUCCESS, PREPARED and paged Rows of system tables, Rows with native/collection/tuple/UDT/nested types read through CqlValue rows AND through a derive-based statically typed row (String, Vec<u8>, Vec<i32>, BTreeSet<String>, HashMap<String,i64>, tuple, derive-based UDT struct, Vec<BTreeMap<i32,Vec<String>>>, f64, IpAddr, Uuid, i16, i8, CqlTimestamp, all Option-wrapped), Void with warnings, tracing id, every ERROR code, SetKeyspace, SchemaChange, EVENTs, tablets custom payload, LZ4/Snappy bodies). Even run indices enumerate truncation (then FIN) of frame f at offset o for EVERY (f, o) with o < len(f) of the fixed-seed exchange (frame lengths measured by a dry run; counter enum_truncation_points_total vs enum_truncations_fired); odd run indices sample feature combinations and one damage to one seeded frame: bit flips, 1/2/4-byte overwrites with 0/-1/1/i32::MAX/... at any offset before or after compression (covers every length/count/flag/type-id field), header flags/opcode/version/length, LZ4 length prefix, garbage frame or body, result metadata nested 8..120000 levels deep, custom (type id 0) columns whose class string comes from a seeded grammar fuzzer over the marshal class syntax (nested parentheses to depth 100000, unbalanced, empty parameters, hex names incl. odd length / non-hex / non-ASCII alphanumerics, frozen/reversed wrappers, unknown classes); 1 in 10 sampled runs is damage-free and checks exact round trip. Non-trivial = a damage fired. Distinct = distinct (poll-sequence hash, event-log hash).",
         "assumptions": COMMON_ASSUMPTIONS + [
             "oracles: child process ends normally (no panic, abort, signal) under RLIMIT_AS 12 GiB and an 8 MiB stack; no single allocation above 64 MiB + 16 x bytes delivered so far (reported before the allocation is forwarded); no wall-clock runaway (30 s kill = busy loop); calls with a client-side timeout return within 120 virtual s; damage-free runs decode exactly what was encoded; after the damaged exchange a fresh request is served within 90 virtual s",
-            "response kinds covered = those the mock encodes; typed targets = CqlValue rows plus the workload's tuples, not the whole carrier matrix (that part of the quantifier is input-only)",
+            "response kinds covered = those the mock encodes; typed targets = CqlValue rows, one derive-based typed row covering the std collection/scalar carriers listed in the rule, and the workload's tuples - not the whole carrier matrix (that part of the quantifier is input-only)",
             "calls without a client-side timeout (session creation, PREPARE, USE, refresh_metadata, DDL with schema agreement) may legitimately keep waiting when the damage makes their response vanish; they are not counted as hangs (counter untimed_call_waiting_for_lost_response)",
         ],
         "expected_probes": ["Corrupt", "enum_truncations_fired", "sampled_mutations_fired", "clean_runs"],
